@@ -45,6 +45,7 @@ type FuncCtx struct {
 	closed     map[string]bool
 	bigHavocs  []*Term
 	safeAssump map[int]bool
+	lostHavoc  map[string]bool
 }
 
 func (fc *FuncCtx) note(s string) { fc.notes[s] = true }
@@ -52,6 +53,9 @@ func (fc *FuncCtx) note(s string) { fc.notes[s] = true }
 func (fc *FuncCtx) heapInit(k string, s Sort) *Term {
 	if old, ok := fc.heapSorts[k]; ok && old != s {
 		panic(fmt.Sprintf("heap class %s used at two sorts: %s and %s", k, old, s))
+	}
+	if fc.lostHavoc[k] {
+		panic(unsupported("heap class " + k + " is read after a havoc whose sort was unknown"))
 	}
 	fc.heapSorts[k] = s
 	h := Const("h0!"+k, s)
@@ -274,7 +278,9 @@ func (fc *FuncCtx) store(st *State, a *Addr, v *Term) {
 
 func fieldClass(t types.Type, i int) string {
 	st := t.Underlying().(*types.Struct)
-	return "F:" + typeKey(t) + "." + st.Field(i).Name()
+	k := "F:" + typeKey(t) + "." + st.Field(i).Name()
+	regSort(k, func() Sort { return SArr(SRef, SortOf(st.Field(i).Type())) })
+	return k
 }
 
 func (fc *FuncCtx) fieldAddr(base *Term, structT types.Type, i int) *Addr {
@@ -316,12 +322,14 @@ func (fc *FuncCtx) derefAddr(ref *Term, pointee types.Type) *Addr {
 		return &Addr{kind: "cell", class: elemClass(u.Elem()), csort: SArr(SRef, SArr(SBV64, SortOf(u.Elem()))), base: ref, typ: pointee}
 	}
 	noteClass("C:"+typeKey(pointee), pointee)
+	regSort("C:"+typeKey(pointee), func() Sort { return SArr(SRef, SortOf(pointee)) })
 	return &Addr{kind: "cell", class: "C:" + typeKey(pointee), csort: SArr(SRef, SortOf(pointee)), base: ref, typ: pointee}
 }
 
 func elemClass(elem types.Type) string {
 	k := "E:" + typeKey(elem)
 	noteClass(k, elem)
+	regSort(k, func() Sort { return elemClassSort(elem) })
 	return k
 }
 
